@@ -266,6 +266,17 @@ pub fn plan(tier: Tier) -> Plan {
             }));
         }
     }
+    // long keys: bounds that are long prefixes / extensions / neighbours
+    p.units.push(unit("long-key-family", "long keys".into(), move |st, rep| {
+        for (_, kvs) in long_key_family() {
+            if kvs[0].0.len() > 2000 {
+                continue;
+            }
+            st.nontrivial += 1;
+            // the non-full bound universe contains every key itself
+            do_case(&kvs, (2, 2), Scope { full_bounds: false, wrappers: true, repeats: false }, st, rep);
+        }
+    }));
     let fanouts: Vec<usize> = if thorough { (0..=256).step_by(3).collect() } else { vec![2, 32, 33, 64, 256] };
     for n in fanouts {
         p.units.push(unit("fanout-families", format!("fanout {}", n), move |st, rep| {
